@@ -28,7 +28,7 @@ OBJ_DET = [21, 22]
 OBJ_ROB = [23, 24, 25, 26]
 XB = 2
 ACTIONS = ['FlipObj', 'MoveObj', 'SwapDecl', 'SwapStmt', 'Respell', 'Rescale', 'SplitEq', 'ArrLoop', 'MoveTerms', 'MoveConst',
-           'RespellBounds', 'RespellSet', 'RespellSetBounds', 'SwitchFront']
+           'RespellBounds', 'RescaleBounds', 'RespellSet', 'RespellSetBounds', 'SwitchFront']
 ALPHABET = dict(Scales={(1, 1), (2, 1), (1, 2), (3, 1)},
                 SetSpellings={'list', 'args', 'tuple', 'gen', 'mixed', 'nested'},
                 BoundSpellings={'arr', 'ent', 'lin', 'inf', 'abs'},
